@@ -382,8 +382,8 @@ class ResultTypesGenerator:
     def _add_typename_field_to_selections(
         self, resolved_fields: List[FieldNode], selection_set: SelectionSetNode
     ) -> Tuple[List[FieldNode], Tuple[SelectionNode, ...]]:
-        field_names = {f.name.value for f in resolved_fields}
-        if TYPENAME_FIELD_NAME not in field_names:
+        response_keys = {self._get_field_name(f) for f in resolved_fields}
+        if TYPENAME_FIELD_NAME not in response_keys:
             typename_field = FieldNode(name=NameNode(value=TYPENAME_FIELD_NAME))
             return [typename_field, *resolved_fields], (
                 typename_field,
